@@ -241,6 +241,17 @@ const NA: usize = 2; // atomics
 const NO: usize = 1; // onces
 const NE: usize = 2; // events
 
+/// push a Yield that is not under the control of a pending SkipUnlessLast marker
+fn push_free_yield(ops: &mut Vec<Op>) {
+    if matches!(ops.last(), Some(Op::SkipUnlessLast(_, usize::MAX))) {
+        let m = ops.pop().unwrap();
+        ops.push(Op::Yield);
+        ops.push(m);
+    } else {
+        ops.push(Op::Yield);
+    }
+}
+
 /// Deterministic fix-up: raw selectors → well-formed program
 pub fn build(raw: &RawProg, cfg: &GenCfg) -> (Prog, FixStats) {
     let mut stats = FixStats::default();
@@ -276,6 +287,7 @@ pub fn build(raw: &RawProg, cfg: &GenCfg) -> (Prog, FixStats) {
         let mut acq_slot = false;
         let mut tx_used: Vec<usize> = vec![];
         let mut tx_dropped: Vec<usize> = vec![];
+        let mut rx_dropped: Vec<usize> = vec![];
         for r in rops {
             let k = menu[idx((r.kind as u16) << 8, menu.len())];
             let v = (r.val % 3) as i64;
@@ -425,7 +437,7 @@ pub fn build(raw: &RawProg, cfg: &GenCfg) -> (Prog, FixStats) {
                     let c = idx(r.obj, chans.len());
                     if tx_used.contains(&c) && !tx_dropped.contains(&c) {
                         if cfg.avoid_known {
-                            ops.push(Op::Yield);
+                            push_free_yield(&mut ops);
                             stats.avoided_known += 1;
                         }
                         ops.push(Op::DropTx(c));
@@ -434,12 +446,13 @@ pub fn build(raw: &RawProg, cfg: &GenCfg) -> (Prog, FixStats) {
                 }
                 K::DropRx => {
                     let c = idx(r.obj, chans.len());
-                    if rx_owner[c] == Some(ti) {
+                    if rx_owner[c] == Some(ti) && !rx_dropped.contains(&c) {
                         if cfg.avoid_known {
-                            ops.push(Op::Yield);
+                            push_free_yield(&mut ops);
                             stats.avoided_known += 1;
                         }
                         ops.push(Op::DropRx(c));
+                        rx_dropped.push(c);
                     }
                 }
                 K::Yield => ops.push(Op::Yield),
@@ -455,7 +468,14 @@ pub fn build(raw: &RawProg, cfg: &GenCfg) -> (Prog, FixStats) {
                 K::TryAcquire => ops.push(Op::TryAcquire(idx(r.obj, sems.len()), 1 + (r.val % 2) as usize)),
                 K::Release => ops.push(Op::Release(idx(r.obj, sems.len()), 1 + (r.val % 2) as usize)),
                 K::Close => ops.push(Op::Close(idx(r.obj, sems.len()))),
-                K::Avail => ops.push(Op::Avail(idx(r.obj, sems.len()))),
+                K::Avail => {
+                    // known finding c02.semaphore-observers-no-yield: available_permits() has no scheduling point
+                    if cfg.avoid_known {
+                        push_free_yield(&mut ops);
+                        stats.avoided_known += 1;
+                    }
+                    ops.push(Op::Avail(idx(r.obj, sems.len())))
+                }
                 K::AcqStart => {
                     if is_async && !acq_slot {
                         ops.push(Op::AcqStart(idx(r.obj, sems.len()), 1 + (r.val % 2) as usize));
@@ -511,10 +531,27 @@ pub fn build(raw: &RawProg, cfg: &GenCfg) -> (Prog, FixStats) {
         }
         // known finding c02.mpsc-endpoint-drop-no-yield: ends dropped at task exit have no scheduling
         // point before the drop; insert a yield so the search continues behind it
-        let owns_end = !tx_used.iter().all(|c| tx_dropped.contains(c)) || rx_owner.iter().any(|o| *o == Some(ti));
-        if cfg.avoid_known && owns_end && !matches!(ops.last(), Some(Op::Yield)) && ti != 0 {
-            ops.push(Op::Yield);
-            stats.avoided_known += 1;
+        // Ends still owned at the end of the task are dropped there back to back, without a scheduling point
+        // in front of any of them: drop all but one explicitly, each behind its own yield, and put a yield
+        // in front of the task end for the last one.
+        if cfg.avoid_known {
+            let mut owned: Vec<Op> = tx_used.iter().filter(|c| !tx_dropped.contains(c)).map(|c| Op::DropTx(*c)).collect();
+            owned.extend((0..chans.len()).filter(|c| rx_owner[*c] == Some(ti) && !rx_dropped.contains(c)).map(Op::DropRx));
+            if !owned.is_empty() {
+                let last = owned.pop().unwrap();
+                for d in owned {
+                    push_free_yield(&mut ops);
+                    ops.push(d);
+                    stats.avoided_known += 1;
+                }
+                let _ = last;
+                let n_ops = ops.len();
+                let last_is_free_yield = matches!(ops.last(), Some(Op::Yield)) && !(n_ops >= 2 && matches!(ops[n_ops - 2], Op::SkipUnlessLast(..)));
+                if !last_is_free_yield {
+                    push_free_yield(&mut ops);
+                    stats.avoided_known += 1;
+                }
+            }
         }
         tasks.push(TaskDef { kind: kinds[ti], ops, tx: tx_used, rx: vec![] });
     }
